@@ -23,9 +23,13 @@ PTypes == {"G", "SSGm", "U", "G|SSGm", "D"}
 GMTypes == {"U", "U|SSGm"}
 Bodies == {"inc_parents", "trav_rel_m", "trav_perm_view", "this_perm_q", "trav_rel_self"}
 Mutations == {"none", "inc_undeclared_rel", "trav_undeclared_rel", "trav_undeclared_crel", "perm_undeclared",
-              "type_undeclared_ns", "ss_undeclared_rel", "ss_undeclared_ns"}
+              "type_undeclared_ns", "ss_undeclared_rel", "ss_undeclared_ns",
+              \* a name that another class declares, but not the class that uses it
+              "inc_foreign_rel", "trav_foreign_rel", "perm_foreign"}
+\* the order of the classes in the document means nothing
+Orders == {"UGD", "DGU", "DUG"}
 \* dup: the unmutated body appears first as another permission of D (the same relation is traversed twice in one document)
-Programs == [pt : PTypes, gm : GMTypes, gview : BOOLEAN, uview : BOOLEAN, dview : BOOLEAN, body : Bodies, mut : Mutations, dup : BOOLEAN]
+Programs == [pt : PTypes, gm : GMTypes, gview : BOOLEAN, uview : BOOLEAN, dview : BOOLEAN, body : Bodies, mut : Mutations, dup : BOOLEAN, order : Orders]
 
 \* which mutations make sense for which program
 Applicable(P) ==
@@ -35,6 +39,9 @@ Applicable(P) ==
     [] P.mut = "perm_undeclared" -> P.body = "this_perm_q"
     [] P.mut = "type_undeclared_ns" -> TRUE
     [] P.mut \in {"ss_undeclared_rel", "ss_undeclared_ns"} -> P.pt \in {"SSGm", "G|SSGm"}
+    [] P.mut = "inc_foreign_rel" -> P.body = "inc_parents"
+    [] P.mut = "trav_foreign_rel" -> P.body \in {"trav_rel_m", "trav_perm_view", "trav_rel_self"}
+    [] P.mut = "perm_foreign" -> P.body = "this_perm_q" /\ ~P.dview /\ (P.gview \/ P.uview)
 
 \* declared types as sequences of <<namespace, relation>>
 TypesOf(t) == CASE t = "G" -> <<<<"G", "">>>> [] t = "SSGm" -> <<<<"G", "m">>>> [] t = "U" -> <<<<"U", "">>>>
@@ -77,26 +84,34 @@ ParentsTxt(P) ==
 Offending(P) ==
   CASE P.mut \in {"inc_undeclared_rel", "trav_undeclared_rel", "trav_undeclared_crel", "perm_undeclared", "ss_undeclared_rel"} -> "zz"
     [] P.mut \in {"type_undeclared_ns", "ss_undeclared_ns"} -> "Nowhere"
+    [] P.mut \in {"inc_foreign_rel", "trav_foreign_rel"} -> "m"
+    [] P.mut = "perm_foreign" -> "view"
     [] OTHER -> ""
 BodyTxtM(P, mutated) ==
-  LET r == IF mutated /\ P.mut \in {"inc_undeclared_rel", "trav_undeclared_rel"} THEN "zz" ELSE "parents"
+  LET r == IF mutated /\ P.mut \in {"inc_undeclared_rel", "trav_undeclared_rel"} THEN "zz"
+           ELSE IF mutated /\ P.mut \in {"inc_foreign_rel", "trav_foreign_rel"} THEN "m" ELSE "parents"
       c == IF mutated /\ P.mut = "trav_undeclared_crel" THEN "zz" ELSE Crel(P)
   IN CASE P.body = "inc_parents" -> "this.related." \o r \o ".includes(ctx.subject)"
        [] P.body \in {"trav_rel_m", "trav_rel_self"} -> "this.related." \o r \o ".traverse((x) => x.related." \o c \o ".includes(ctx.subject))"
        [] P.body = "trav_perm_view" -> "this.related." \o r \o ".traverse((x) => x.permits." \o c \o "(ctx))"
-       [] OTHER -> "this.permits." \o (IF mutated /\ P.mut = "perm_undeclared" THEN "zz" ELSE "q") \o "(ctx)"
+       [] OTHER -> "this.permits." \o (IF mutated /\ P.mut = "perm_undeclared" THEN "zz" ELSE IF mutated /\ P.mut = "perm_foreign" THEN "view" ELSE "q") \o "(ctx)"
 BodyTxt(P) == BodyTxtM(P, TRUE)
 ViewTxt(rel) == "view: (ctx: Context): boolean => this.related." \o rel \o ".includes(ctx.subject)"
-Source(P) ==
+ClassU(P) ==
   "class U implements Namespace {\n  related: { self: U[] }\n"
   \o (IF P.uview THEN "  permits = { " \o ViewTxt("self") \o " }\n" ELSE "") \o "}\n"
-  \o "class G implements Namespace {\n  related: { m: " \o TypeTxt(P.gm) \o " }\n"
+ClassG(P) ==
+  "class G implements Namespace {\n  related: { m: " \o TypeTxt(P.gm) \o " }\n"
   \o (IF P.gview THEN "  permits = { " \o ViewTxt("m") \o " }\n" ELSE "") \o "}\n"
-  \o "class D implements Namespace {\n  related: { parents: " \o ParentsTxt(P) \o " }\n"
+ClassD(P) ==
+  "class D implements Namespace {\n  related: { parents: " \o ParentsTxt(P) \o " }\n"
   \o "  permits = {\n    q: (ctx: Context): boolean => this.related.parents.includes(ctx.subject),\n"
   \o (IF P.dview THEN "    " \o ViewTxt("parents") \o ",\n" ELSE "")
   \o (IF P.dup THEN "    p0: (ctx: Context): boolean => " \o BodyTxtM(P, FALSE) \o ",\n" ELSE "")
   \o "    p: (ctx: Context): boolean => " \o BodyTxt(P) \o "\n  }\n}\n"
+Source(P) == CASE P.order = "UGD" -> ClassU(P) \o ClassG(P) \o ClassD(P)
+               [] P.order = "DGU" -> ClassD(P) \o ClassG(P) \o ClassU(P)
+               [] OTHER -> ClassD(P) \o ClassU(P) \o ClassG(P)
 
 \* stored relationships that conform to the declared types (one per declared type), and the checks to run
 Conforming(P) ==
